@@ -426,6 +426,22 @@ func c12Script(idx int, seed uint64, order string, forceRace bool) {
 	if fq := forcedReq(reqs); fq != nil && fq.kind == "pub2" {
 		pubrecSent[fq.wireID]++
 	}
+	// a PUBREC repeated when its exchange is over and forgotten (the peer had lost our PUBREL and gave
+	// up waiting): it is answered with a PUBREL like any other. Sent only once everything has completed,
+	// so that it cannot meet an entry that is still queued.
+	if order == "random-dups" {
+		if !s.barrier(5 * time.Second) {
+			fail("c12:barrier", "the client did not answer the peer's PINGREQ")
+			return
+		}
+		for _, q := range pending {
+			if q.kind == "pub2" && r.Intn(2) == 0 {
+				sendAck(q, rc.PUBREC)
+				pubrecSent[q.wireID]++
+				out.Count("c12.pubrec_after_completion", 1)
+			}
+		}
+	}
 	if !s.barrier(5 * time.Second) {
 		fail("c12:barrier", "the client did not answer the peer's PINGREQ")
 		return
